@@ -878,6 +878,10 @@ func ruleR18_11(w *World, r *Report) {
 							if _, isF := isFieldLoad(ia.X, "", "minLits"); isF {
 								overCost = true
 							}
+							// the printer may be a function handed the cost literals (`costFuncString(lits, weights)`)
+							if _, isP := ia.X.(*ssa.Parameter); isP && typeShort(ia.X.Type()) == "[]solver.Lit" {
+								overCost = true
+							}
 						}
 					}
 				}
@@ -1434,6 +1438,53 @@ func ruleR9_12(w *World, r *Report) {
 				bad = append(bad, "the degree is lowered by the weight of an occurrence (at "+w.InstrPos(sub)+") that is not known to be the opposite of the literal kept: a literal that is merely repeated lowers the degree too, and the merged constraint is weaker than the one handed in (a clause `x y x` is dropped as always true)")
 			}
 			return
+		}
+		// (a'), helper form: `card -= weightFrom(clause, lit.Negation(), i+1)`: a function that adds up the weights of
+		// the occurrences equal to the literal it is handed, handed the opposite literal
+		if hc, isCall := sub.Y.(*ssa.Call); isCall {
+			if hf := hc.Call.StaticCallee(); hf != nil && w.PkgName(hf) == "solver" && len(hf.Blocks) > 0 {
+				pi := -1
+				for i, a := range hc.Call.Args {
+					if nc, isN := a.(*ssa.Call); isN && w.calleeName(&nc.Call) == "(solver.Lit).Negation" {
+						pi = i
+					}
+				}
+				if pi >= 0 && pi < len(hf.Params) {
+					adds, okAdds := 0, true
+					allInstrs(hf, func(i2 ssa.Instruction) {
+						add, isAdd := i2.(*ssa.BinOp)
+						if !isAdd || add.Op != token.ADD {
+							return
+						}
+						wc, isW := add.Y.(*ssa.Call)
+						if !isW || !strings.HasSuffix(w.calleeName(&wc.Call), ").Weight") || len(wc.Call.Args) != 2 {
+							return
+						}
+						adds++
+						j := wc.Call.Args[1]
+						okOne := false
+						for _, ec := range dominatingConds(add.Block()) {
+							bo, isB := ec.Cond.(*ssa.BinOp)
+							if !isB || bo.Op != token.EQL || !ec.True {
+								continue
+							}
+							for _, pair := range [][2]ssa.Value{{bo.X, bo.Y}, {bo.Y, bo.X}} {
+								_, idx, isElem := clauseElem(w, pair[0])
+								if isElem && idx == j && pair[1] == ssa.Value(hf.Params[pi]) {
+									okOne = true
+								}
+							}
+						}
+						if !okOne {
+							okAdds = false
+						}
+					})
+					if adds > 0 && okAdds {
+						formA++
+						return
+					}
+				}
+			}
 		}
 		// (b) the net weight, where it is negative
 		okB := false
